@@ -22,18 +22,18 @@ type sweepItem struct {
 }
 
 type sweepResult struct {
-	prop        string
-	cone        []*ssa.Function
-	obls        []*Oblig
-	claimed     []*Oblig
-	undecided   []*Oblig
-	newReplayed []sweepItem
-	assumed     map[string]bool
-	ledger      map[string]bool
-	notes       map[string]bool
-	skipped     []string
+	prop           string
+	cone           []*ssa.Function
+	obls           []*Oblig
+	claimed        []*Oblig
+	undecided      []*Oblig
+	newReplayed    []sweepItem
+	assumed        map[string]bool
+	ledger         map[string]bool
+	notes          map[string]bool
+	skipped        []string
 	knownUndecided map[string]bool // undecided on the pinned tree (never replayed again)
-	contracted  map[*Oblig]bool // obligations of functions whose contract carries the safety flag: always claimed
+	contracted     map[*Oblig]bool // obligations of functions whose contract carries the safety flag: always claimed
 }
 
 func isHandlerSig(sig *types.Signature) bool {
@@ -286,14 +286,14 @@ func (sw *sweepResult) summary() map[string]interface{} {
 		und = und[:400]
 	}
 	return map[string]interface{}{
-		"cone_functions":              len(sw.cone),
+		"cone_functions":               len(sw.cone),
 		"safety_obligations_generated": len(sw.obls),
-		"claimed_and_discharged":      len(sw.claimed),
-		"discharged_by_kind":          kinds,
-		"undecided_not_claimed":       len(sw.undecided),
-		"undecided_ids":               und,
-		"skipped_functions":           sw.skipped,
-		"ledger_entries":              len(sw.ledger),
-		"rule":                        "an obligation is claimed iff it discharged on the pinned tree (ledger) or discharges now; an undecided obligation raises a violation only if its model reproduces a panic on the real code",
+		"claimed_and_discharged":       len(sw.claimed),
+		"discharged_by_kind":           kinds,
+		"undecided_not_claimed":        len(sw.undecided),
+		"undecided_ids":                und,
+		"skipped_functions":            sw.skipped,
+		"ledger_entries":               len(sw.ledger),
+		"rule":                         "an obligation is claimed iff it discharged on the pinned tree (ledger) or discharges now; an undecided obligation raises a violation only if its model reproduces a panic on the real code",
 	}
 }
